@@ -250,15 +250,21 @@ def layout(forest):
             continue
         seen.append(owner)
         owner.abbrev_off = u.abbrev_off = len(abbrev)
-    # tables are complete only after all sharing units were scanned: emit now
+    # tables are complete only after all sharing units were scanned: emit now, in the order of
+    # first use unless the forest asks for another placement (forest.abbrev_order: a permutation
+    # of the owners' first-use indices)
     abbrev = []
     emitted = {}
-    for u in forest.units:
+    order = getattr(forest, "abbrev_order", None)
+    if order is not None and sorted(order) == list(range(len(seen))):
+        units_in_emit_order = [seen[i] for i in order]
+    else:
+        units_in_emit_order = list(forest.units)
+    for u in units_in_emit_order:
         owner = u.share or u
         if id(owner) in emitted:
-            u.abbrev_off = emitted[id(owner)]
             continue
-        emitted[id(owner)] = u.abbrev_off = owner.abbrev_off = len(abbrev)
+        emitted[id(owner)] = owner.abbrev_off = len(abbrev)
         owner.abbrev_entry_offsets = {}
         for code, tag, flag, attrs in owner.abbrevs:
             owner.abbrev_entry_offsets[code] = len(abbrev)
@@ -269,6 +275,8 @@ def layout(forest):
                     abbrev += sleb(implicit)
             abbrev += [0, 0]
         abbrev += [0]
+    for u in forest.units:
+        u.abbrev_off = (u.share or u).abbrev_off
     # .debug_loc
     loc = []
     forest.loc_offsets = []
